@@ -1,4 +1,4 @@
-\* representative quick configuration (checks/C06.py generates one cfg per location x expire x jar from lib/sesslib.py)
+\* representative thorough configuration (checks/C06.py generates one cfg per location x expire x jar from lib/sesslib.py)
 SPECIFICATION Spec
 CONSTANTS
   Browsers = {0}
@@ -11,11 +11,11 @@ CONSTANTS
   Ages = {50}
   Hows = {0,2}
   OpKinds = {"set","erase","clear","expose","hide","age","how","srv","reset"}
-  Advances = {3,40,99,101}
+  Advances = {3,10,40,99,100,101}
   WfIds = {1,2,3,4,5,6,7,8,9,10,11,12,13,14}
   JunkIds = {901}
-  MaxReq = 2
-  MaxOps = 2
+  MaxReq = 3
+  MaxOps = 1
   MaxTamper = 1
 VIEW View
 INVARIANTS Carry NoForeign Dead SidForm Exposed JarLeft
